@@ -115,50 +115,264 @@ def glob_of_str(s):
     return ['other', s]
 
 
-RX_OPS = ('rxAppend', 'rxExtend', 'rxIadd', 'rxSet', 'rxSetSlice', 'rxDel', 'rxClear', 'rxIaddAttr')
+# ---------------------------------------------------------------------------------------------
+# the four filter lists (MonitoredLists with the callback Torrent._filters_changed)
+
+RX_SHAPES = ('lit', 'suffix', 'suffixCI', 'pre', 'suffixClass')
 
 
-def _rx_list(t, op, held):
-    """the regex filter list the operation works on: the attribute read now, or (op['held']) the
-    list object obtained at the first such operation of the history and kept since"""
-    get = (lambda: t.include_regexs) if op['inc'] else (lambda: t.exclude_regexs)   # noqa
-    if op.get('held') and held is not None:
-        key = ('rx', bool(op['inc']))
+def rx_valid(p):
+    try:
+        re.compile(p)
+        return True
+    except re.error:
+        return False
+
+
+def rx_str(shape):
+    """source text of a regular expression of the model (Torf.Attrs.Rx)"""
+    kind, s = shape
+    if kind == 'lit':
+        return re.escape(s)
+    if kind == 'suffix':
+        return re.escape(s) + '$'
+    if kind == 'suffixCI':
+        return '(?i)' + re.escape(s) + '$'
+    if kind == 'pre':
+        return '^' + re.escape(s)
+    if kind == 'suffixClass':
+        return '[' + s + ']$'
+    if kind == 'invalid':
+        return s
+    raise AssertionError('regex shape ' + kind)
+
+
+def _unescape(body):
+    out, i = [], 0
+    while i < len(body):
+        if body[i] == '\\' and i + 1 < len(body):
+            i += 1
+        out.append(body[i])
+        i += 1
+    return ''.join(out)
+
+
+def rx_shape(p):
+    """pattern source -> shape of the model; ['other', p] if the model has no such shape"""
+    if not rx_valid(p):
+        return ['invalid', p]
+    cands = [['lit', _unescape(p)]]
+    if p.endswith('$'):
+        cands.append(['suffix', _unescape(p[:-1])])
+        if p.startswith('(?i)'):
+            cands.append(['suffixCI', _unescape(p[4:-1])])
+        if p.startswith('[') and p.endswith(']$') and p[1:-2].isalnum():
+            cands.append(['suffixClass', p[1:-2]])
+    if p.startswith('^'):
+        cands.append(['pre', _unescape(p[1:])])
+    for c in cands:
+        if rx_str(c) == p:
+            return c
+    return ['other', p]
+
+
+# harness-level operation names -> (list kind, operation of the model's `LOp`, route)
+#   route 'attr': assignment to / augmented assignment of the ATTRIBUTE (the property setter runs
+#   `lst[:] = value`); route 'list': a method / item assignment of the list object (the attribute
+#   read at that moment, or — op['held'] — the object obtained at the first such operation)
+_FL = {'Set': ('setSlice', 'attr'), 'SetSlice': ('setSlice', 'list'), 'SetIndex': ('setIndex', 'list'),
+       'Append': ('append', 'list'), 'Extend': ('extend', 'list'), 'Iadd': ('extend', 'list'),
+       'Del': ('del', 'list'), 'Clear': ('clear', 'list'), 'SetSelf': ('assignSelf', 'attr'),
+       'SliceSelf': ('assignSelf', 'list'), 'IaddAttr': ('iaddAttr', 'attr')}
+FLIST_OPS = {kind + suffix: (kind, suffix) for kind in ('glob', 'rx') for suffix in _FL}
+RX_OPS = tuple(k for k in FLIST_OPS if k.startswith('rx'))
+
+
+def flist(op):
+    """None for an operation that is not a filter-list operation, else its normal form:
+    kind 'glob'|'rx', inc, held, o (LOp name), route, a, b, i, vs / v (raw values: glob pairs or
+    regex source texts)"""
+    if op['k'] not in FLIST_OPS:
+        return None
+    kind, suffix = FLIST_OPS[op['k']]
+    o, route = _FL[suffix]
+    f = {'kind': kind, 'inc': bool(op['inc']), 'held': bool(op.get('held')) and route == 'list',
+         'o': o, 'route': route, 'suffix': suffix}
+    many, one = ('gs', 'g') if kind == 'glob' else ('ps', 'p')
+    if o in ('setSlice', 'extend', 'iaddAttr'):
+        f['vs'] = [v for v in op[many]]
+    if o in ('setIndex', 'append'):
+        f['v'] = op[one]
+    if suffix == 'Set':
+        f['a'], f['b'] = 0, None
+    elif suffix == 'SetSlice':
+        f['a'], f['b'] = op['a'], op.get('b')
+    if o in ('setIndex', 'del'):
+        f['i'] = op['i']
+    return f
+
+
+def flist_attr(f):
+    return ('include_' if f['inc'] else 'exclude_') + ('globs' if f['kind'] == 'glob' else 'regexs')
+
+
+def flist_key(f):
+    return ('in' if f['inc'] else 'ex') + ('Globs' if f['kind'] == 'glob' else 'Regexs')
+
+
+def _raw(f, v):
+    """the Python value handed to torf"""
+    return glob_str(v) if f['kind'] == 'glob' else v
+
+
+def to_driver(op):
+    """the operation as the Lean driver reads it (filter-list operations in the generic form,
+    regular expressions as shapes of the model)"""
+    f = flist(op)
+    if f is None:
+        return op
+    item = (lambda g: list(g)) if f['kind'] == 'glob' else rx_shape
+    d = {'k': 'flist', 'kind': f['kind'], 'inc': f['inc'], 'o': f['o']}
+    if 'vs' in f:
+        d['vs'] = [item(v) for v in f['vs']]
+    if 'v' in f:
+        d['v'] = item(f['v'])
+    for key in ('a', 'b', 'i'):
+        if key in f:
+            d[key] = f[key]
+    bad = [x for x in d.get('vs', []) + ([d['v']] if 'v' in d else []) if x[0] == 'other']
+    assert not bad, 'pattern outside the shapes of the model: %r' % (bad,)
+    return d
+
+
+def model_state(m):
+    """driver state -> the representation `project` uses (regular expressions as source texts)"""
+    m = dict(m)
+    for k in ('exRegexs', 'inRegexs'):
+        m[k] = [rx_str(x) for x in m[k]]
+    return m
+
+
+def dedup_first(xs):
+    out = []
+    for x in xs:
+        if x not in out:
+            out.append(x)
+    return out
+
+
+def ref_list(pre, f, valid=lambda v: True):
+    """What the filter list must hold after the operation `f` (normal form) if it holds `pre`
+    before and the callback does not raise: Python's own list semantics + every item once, the
+    first occurrence wins; an operation that is given an item `valid` rejects (or an index out of
+    range) leaves the list as it is — `extend` / `+=` keep the items before the rejected one.
+    Returns (list, outcome) with outcome 'ok' | 're.error' | 'IndexError'."""
+    l = list(pre)
+    o = f['o']
+    if o == 'setSlice':
+        if not all(valid(v) for v in f['vs']):
+            return l, 're.error'
+        l[f['a']:f['b']] = list(f['vs'])
+        return dedup_first(l), 'ok'
+    if o == 'setIndex':
+        if not valid(f['v']):
+            return l, 're.error'
+        try:
+            l[f['i']] = f['v']
+        except IndexError:
+            return list(pre), 'IndexError'
+        return dedup_first(l), 'ok'
+    if o == 'append':
+        if not valid(f['v']):
+            return l, 're.error'
+        return (l if f['v'] in l else l + [f['v']]), 'ok'
+    if o in ('extend', 'iaddAttr'):
+        for v in f['vs']:
+            if not valid(v):
+                return l, 're.error'
+            if v not in l:
+                l.append(v)
+        return dedup_first(l), 'ok'
+    if o == 'del':
+        if l:
+            del l[f['i'] % len(l)]
+        return l, 'ok'
+    if o == 'clear':
+        return [], 'ok'
+    if o == 'assignSelf':
+        return dedup_first(l), 'ok'
+    raise AssertionError(o)
+
+
+def _iadd_attr(t, name, vs):
+    # literally `torrent.<name> += vs`: getter, MutableSequence.__iadd__, then the SETTER with the list itself
+    if name == 'exclude_globs':
+        t.exclude_globs += vs
+    elif name == 'include_globs':
+        t.include_globs += vs
+    elif name == 'exclude_regexs':
+        t.exclude_regexs += vs
+    else:
+        t.include_regexs += vs
+
+
+def _assign_self(t, name):
+    # literally `torrent.<name> = torrent.<name>`
+    if name == 'exclude_globs':
+        t.exclude_globs = t.exclude_globs
+    elif name == 'include_globs':
+        t.include_globs = t.include_globs
+    elif name == 'exclude_regexs':
+        t.exclude_regexs = t.exclude_regexs
+    else:
+        t.include_regexs = t.include_regexs
+
+
+def do_flist(t, f, held):
+    name = flist_attr(f)
+    suffix = f['suffix']
+    if suffix == 'Set':                   # `torrent.x = [...]` (the setter does `lst[:] = value`)
+        setattr(t, name, [_raw(f, v) for v in f['vs']])
+        return
+    if suffix == 'SetSelf':
+        _assign_self(t, name)
+        return
+    if suffix == 'IaddAttr':
+        _iadd_attr(t, name, [_raw(f, v) for v in f['vs']])
+        return
+    if f['held'] and held is not None:
+        key = (f['kind'], f['inc'])
         if key not in held:
-            held[key] = get()
-        return held[key]
-    return get()
+            held[key] = getattr(t, name)
+        lst = held[key]
+    else:
+        lst = getattr(t, name)
+    if suffix == 'SetSlice':
+        lst[f['a']:f['b']] = [_raw(f, v) for v in f['vs']]
+    elif suffix == 'SetIndex':
+        lst[f['i']] = _raw(f, f['v'])
+    elif suffix == 'Append':
+        lst.append(_raw(f, f['v']))
+    elif suffix == 'Extend':
+        lst.extend([_raw(f, v) for v in f['vs']])
+    elif suffix == 'Iadd':                # `lst += [...]` on a local name: in-place extend, no setter
+        lst += [_raw(f, v) for v in f['vs']]
+    elif suffix == 'SliceSelf':           # `lst[:] = lst`
+        lst[:] = lst
+    elif suffix == 'Del':
+        if len(lst):
+            del lst[f['i'] % len(lst)]
+    elif suffix == 'Clear':
+        lst.clear()
+    else:
+        raise AssertionError(suffix)
 
 
 def do_op(torf, t, op, root, held=None):
     k = op['k']
-    if k in RX_OPS:
-        if k == 'rxSet':                 # assignment to the attribute (the setter does `lst[:] = value`)
-            if op['inc']:
-                t.include_regexs = list(op['ps'])
-            else:
-                t.exclude_regexs = list(op['ps'])
-            return 'ok'
-        if k == 'rxIaddAttr':            # `t.exclude_regexs += [...]`: getter, __iadd__, then the SETTER with the list itself
-            if op['inc']:
-                t.include_regexs += list(op['ps'])
-            else:
-                t.exclude_regexs += list(op['ps'])
-            return 'ok'
-        lst = _rx_list(t, op, held)
-        if k == 'rxAppend':
-            lst.append(op['p'])
-        elif k == 'rxExtend':
-            lst.extend(list(op['ps']))
-        elif k == 'rxIadd':              # `lst += [...]` on a local name: in-place extend, no setter
-            lst += list(op['ps'])
-        elif k == 'rxSetSlice':
-            lst[op['a']:op['b']] = list(op['ps'])
-        elif k == 'rxDel':
-            if len(lst):
-                del lst[op['i'] % len(lst)]
-        elif k == 'rxClear':
-            lst.clear()
+    f = flist(op)
+    if f is not None:
+        do_flist(t, f, held)
         return 'ok'
     if k == 'setPath':
         t.path = None if op['p'] is None else real(root, op['p'])
@@ -183,25 +397,6 @@ def do_op(torf, t, op, root, held=None):
         t.filepaths.append(real(root, op['p']))
     elif k == 'fpClear':
         t.filepaths.clear()
-    elif k == 'globSet':
-        v = [glob_str(g) for g in op['gs']]
-        if op['inc']:
-            t.include_globs = v
-        else:
-            t.exclude_globs = v
-    elif k == 'globAppend':
-        (t.include_globs if op['inc'] else t.exclude_globs).append(glob_str(op['g']))
-    elif k == 'globIaddAttr':            # `t.exclude_globs += [...]` (attribute level, see rxIaddAttr)
-        if op['inc']:
-            t.include_globs += [glob_str(g) for g in op['gs']]
-        else:
-            t.exclude_globs += [glob_str(g) for g in op['gs']]
-    elif k == 'globDel':
-        lst = t.include_globs if op['inc'] else t.exclude_globs
-        if len(lst):
-            del lst[op['i'] % len(lst)]
-    elif k == 'globClear':
-        (t.include_globs if op['inc'] else t.exclude_globs).clear()
     elif k == 'setName':
         t.name = op['n']
     elif k == 'setPieceSize':
@@ -349,16 +544,12 @@ def spec_check(torf, t, obs, root):
     return dev
 
 
-def rx_valid(p):
-    try:
-        re.compile(p)
-        return True
-    except re.error:
-        return False
-
-
 def op_patterns(op):
-    return [op['p']] if 'p' in op and op['k'] in RX_OPS else list(op.get('ps', ())) if op['k'] in RX_OPS else []
+    """the regex source texts an operation hands to a regex filter list"""
+    f = flist(op)
+    if f is None or f['kind'] != 'rx':
+        return []
+    return list(f.get('vs', [])) + ([f['v']] if 'v' in f else [])
 
 
 def expected_listed(tree, obs):
@@ -394,10 +585,11 @@ def _content(o):
 
 
 def filter_codes(op, res, pre, obs, tree):
-    """The filter clauses of C09 on the real object: the listed files follow the filters that are
-    actually in the lists; hashes do not survive a change of filters / files / piece length; an
-    invalid regular expression is rejected with re.error (and a valid one is not); a rejected
-    single assignment / append changes nothing."""
+    """The filter clauses of C09 on the real object: the filter lists hold what was assigned
+    (every item once, only patterns); the listed files follow the filters that are actually in the
+    lists; hashes do not survive a change of filters / files / piece length; an invalid regular
+    expression is rejected with re.error (and a valid one is not), an index out of range with
+    IndexError; a rejected single assignment / append changes nothing."""
     dev = []
     if not obs['filterTypesOk']:
         dev.append('filter-list-holds-a-non-pattern')      # e.g. None instead of the pattern that was given
@@ -411,15 +603,32 @@ def filter_codes(op, res, pre, obs, tree):
             dev.append('pieces-survived-filter-change')
         if _content(pre) != _content(obs):
             dev.append('pieces-survived-content-change')
-    if op['k'] in RX_OPS:
+    f = flist(op)
+    if f is not None:
         bad = [p for p in op_patterns(op) if not rx_valid(p)]
         if bad and res != 're.error':
             dev.append('invalid-regex-not-rejected')
         if not bad and res == 're.error':
             dev.append('valid-regex-rejected')
-        if res == 're.error' and op['k'] in ('rxAppend', 'rxSet', 'rxSetSlice') and pre is not None and \
-                (_filters(pre) != _filters(obs) or _content(pre) != _content(obs) or pre['pieces'] != obs['pieces']):
-            dev.append('rejected-filter-assignment-changed-state')
+        if pre is not None:
+            key = flist_key(f)
+            valid = rx_valid if f['kind'] == 'rx' else (lambda v: True)
+            want, outcome = ref_list(pre[key], f, valid)
+            if outcome == 'IndexError' and res != 'IndexError':
+                dev.append('index-out-of-range-not-rejected')
+            if outcome != 'IndexError' and res == 'IndexError':
+                dev.append('index-in-range-rejected')
+            if res == outcome:
+                # accepted: the list holds the assigned items, each once, first occurrence first;
+                # rejected: a single assignment / append leaves the list alone, extend / += keep
+                # the items before the rejected one
+                if obs[key] != want:
+                    dev.append('filter-list-differs-from-assignment')
+                if any(obs[k2] != pre[k2] for k2 in ('exGlobs', 'inGlobs', 'exRegexs', 'inRegexs') if k2 != key):
+                    dev.append('other-filter-list-changed')
+            if res in ('re.error', 'IndexError') and f['o'] in ('setSlice', 'setIndex', 'append', 'assignSelf') and \
+                    (_filters(pre) != _filters(obs) or _content(pre) != _content(obs) or pre['pieces'] != obs['pieces']):
+                dev.append('rejected-filter-assignment-changed-state')
     return dev
 
 
@@ -489,13 +698,16 @@ def run_history(torf, ops, root, stop_on_deviation=True, timeout=60):
             except re.error as e:
                 # the documented exception of the regex filter lists; anywhere else it is undocumented
                 res = 're.error' if op['k'] in RX_OPS else 're.error-outside-regex-filter-operation'
+            except IndexError as e:
+                # what `lst[i] = v` on a filter list raises for an index out of range
+                res = 'IndexError' if op['k'] in ('globSetIndex', 'rxSetIndex') else 'IndexError-outside-index-assignment'
             except RuntimeError as e:
                 res = 'RuntimeError'
             except _Timeout:
                 raise
             except Exception as e:   # noqa: undocumented exception type
                 res = type(e).__name__
-            if res != 'ok' and res not in DOCUMENTED and res != 're.error' and not res.startswith('generate-'):
+            if res != 'ok' and res not in DOCUMENTED and res not in ('re.error', 'IndexError') and not res.startswith('generate-'):
                 dev.append('undocumented-exception-' + res)
             obs = project(t, root)
             dev += spec_check(torf, t, obs, root)
